@@ -360,7 +360,8 @@ class SimpleCorrelator(AbstractCorrelator):
                 await self.hook.send_error(smpp_message, _EXPIRED_ERROR, self.client_id)
 
     async def put(self, smpp_message: SmppMessage) -> None:
-        await self._remove_expired()
+        # Store first: removing expired items awaits the user application's hook, and the response
+        # to this request (which is already on the wire) may be processed in the meantime
         stored_at: float = time.monotonic()
         seq_key: str = str(smpp_message.sequence_num)
         self._store[seq_key] = (stored_at, smpp_message)
@@ -383,6 +384,7 @@ class SimpleCorrelator(AbstractCorrelator):
                     )
                 segment_status.status[str(seq_num)] = STATUS_SENDING
                 self._segment_status_store[key] = segment_status  # persist the update
+        await self._remove_expired()
 
     async def put_delivery(self, smsc_message_id: str, submit_sm: SubmitSm) -> None:
         await self._remove_expired()
